@@ -127,8 +127,13 @@ class Exec:
                 return 'dup'
             except AssertionError:
                 res.probe('duplicate_name_rejected')
-            if graphsim.real_signature(c) != before:
+            try:
+                unchanged = graphsim.real_signature(c) == before
+            except (AttributeError, TypeError, KeyError, IndexError):
+                unchanged = False      # (a half-constructed node left in a container cannot even be described)
+            if not unchanged:
                 res.violate('graph-duplicate-name-accepted', f'step {k}: rejected duplicate node "{key[0]}" changed the graph')
+                return 'dup'
             did = f'duplicate Node({key[0]})'
         elif kind in ('line', 'linex'):
             if len(keys) < 2: return None
